@@ -23,6 +23,10 @@ EXPLANATION = (
     'Not decided: numpy integer overflow near 2^63.')
 EXPLANATION_ADDED = (' (R8) fixed-width integer limits: no method multiplies or squares limit-derived values (the may-be-integer dataflow of C01.R9 with the four limits as sources).')
 EXPLANATION += EXPLANATION_ADDED
+EXPLANATION_ADDED3 = (' (R8) the constructor stores int(limit) for each of the four limits (decided by evaluating the constructor: the stored term is the int() of the parameter), so numpy integer scalars do not reach the box arithmetic, and the may-be-integer lint finds no wrapping product/sum in the box methods.')
+EXPLANATION += EXPLANATION_ADDED3
+EXPLANATION_ADDED2 = (' (R9) a box is a value: no method of RegionBoundingBox writes through the box it is called on or through its arguments (C13.R1 restricted to the bounding-box module), so no result depends on the methods called before.')
+EXPLANATION += EXPLANATION_ADDED2
 TRUSTED = ['builtin min/max/abs on integers', 'slice(a, b) selects a <= i < b for 0 <= a']
 ASSUMPTIONS = ['corners are exact integers']
 
@@ -67,6 +71,15 @@ def _val(v):
     return ('other', repr(v))
 
 
+def _ot(ctx, f, t, asg):
+    try:
+        return ot_ev(t, asg)
+    except AnalysisError:
+        raise
+    except Exception as exc:       # a result that is no longer a box of order-type terms
+        raise AnalysisError(ctx._rule, f'RegionBoundingBox.{f.name}', f'result is not reducible on an order type: {str(exc)[:160]}')
+
+
 def r1(ctx):
     f, a, b, t = _binary(ctx, 'union')
     need_known(ctx, t, 'RegionBoundingBox.union')
@@ -77,7 +90,7 @@ def r1(ctx):
         for ay in Y:
             asg = {**ax, **ay}
             n += 1
-            got = _val(ot_ev(t, asg))
+            got = _val(_ot(ctx, f, t, asg))
             want = ('box', min(asg[xs[0]], asg[xs[2]]), max(asg[xs[1]], asg[xs[3]]),
                     min(asg[ys[0]], asg[ys[2]]), max(asg[ys[1]], asg[ys[3]]))
             if got != want:
@@ -110,7 +123,7 @@ def r2(ctx):
         for ay in Y:
             asg = {**ax, **ay}
             n += 1
-            got = _val(ot_ev(t, asg))
+            got = _val(_ot(ctx, f, t, asg))
             x0, x1 = max(asg[xs[0]], asg[xs[2]]), min(asg[xs[1]], asg[xs[3]])
             y0, y1 = max(asg[ys[0]], asg[ys[2]]), min(asg[ys[1]], asg[ys[3]])
             want = None if (x0 >= x1 or y0 >= y1) else ('box', x0, x1, y0, y1)
@@ -362,6 +375,17 @@ def r8(ctx):
     ctx.need(n >= 8, 'RegionBoundingBox methods', f'only {n} analysed')
 
 
+def r9(ctx):
+    """a box is a value: no method writes to the box it is called on (or to the other operand) after construction, so a
+    result cannot depend on which methods were called before — C13.R1 restricted to the bounding-box module (a memo of
+    slices kept in the instance and shared by `copy.copy` hands one box the slices of another)."""
+    from .c09 import _SubCtx
+    from .c13 import r1 as c13r1
+    sub = _SubCtx(ctx, lambda c: 'RegionBoundingBox.' in c or 'bounding_box.py' in c)
+    c13r1(sub)
+    sub.flush('no method of RegionBoundingBox writes through self or its arguments', 'RegionBoundingBox methods')
+
+
 RULES = [
     RuleDef('R1', 'union is the smallest enclosing box on every order type', r1, 3),
     RuleDef('R2', 'intersection = common pixels, None iff none, on every order type', r2, 1),
@@ -370,4 +394,5 @@ RULES = [
     RuleDef('R5', 'overlap slices: windows and (None, None) condition', r5, 2),
     RuleDef('R6', 'constructor guards; __eq__ over four corners', r6, 2),
     RuleDef('R8', 'limits are stored as Python integers (numpy integer scalars are converted), so the box arithmetic cannot wrap', r8, 1),
+    RuleDef('R9', 'box methods do not write to the box (no state between calls; C13.R1 on the bounding-box module)', r9, 1),
 ]
